@@ -120,6 +120,8 @@ def rand_formula_tokens(rng, d):
         return ["!"] + rand_formula_tokens(rng, d - 1)
     if r < 0.6:
         return ["("] + rand_formula_tokens(rng, d - 1) + [")"]
+    if r < 0.72:  # parenthesised group, operator, parenthesised group: the outer parentheses of the side do NOT match each other
+        return ["("] + rand_formula_tokens(rng, d - 1) + [")"] + [rng.choice([",", ";"])] + ["("] + rand_formula_tokens(rng, d - 1) + [")"]
     op = rng.choice([",", ";"])
     return rand_formula_tokens(rng, d - 1) + [op] + rand_formula_tokens(rng, d - 1)
 
@@ -195,9 +197,15 @@ def _exec_files(args):
                 rec["note"] = f"keys {list(conds.keys())} are not 1..n in file order"
             # the text representation must re-parse to an equivalent conditional
             for c in conds.values():
-                rq = parse_queries(str(c))
-                rc = list(rq.conditionals.values())
-                if len(rc) != 1 or [mask_of(rc[0].consequence), mask_of(rc[0].antecedence)] != [mask_of(c.consequence), mask_of(c.antecedence)]:
+                try:
+                    rq = parse_queries(str(c))
+                    rc = list(rq.conditionals.values())
+                    same = len(rc) == 1 and [mask_of(rc[0].consequence), mask_of(rc[0].antecedence)] == [mask_of(c.consequence), mask_of(c.antecedence)]
+                except BaseException as e2:
+                    if isinstance(e2, (KeyboardInterrupt, SystemExit)):
+                        raise
+                    same = False
+                if not same:
                     rec["note"] = f"text representation {str(c)!r} does not re-parse to an equivalent conditional"
         except BaseException as e:
             if isinstance(e, (KeyboardInterrupt, SystemExit)):
